@@ -18,6 +18,8 @@ EXPLANATION = (
     "R15-validation: the argument asserts of quantile/cdf dominate the borrow; empty digests return NaN / 0."
     " C19's clear rules are applied to TDigest/TDigestInner (state kept across clear() mixes old and new data)."
 )
+from .common import NEW_WRITERS_NOTE as _NWN
+EXPLANATION = EXPLANATION + _NWN % "15"
 NOT_DECIDED = "floating-point tolerance, and the `within the digest's resolution` quantification of cdf(quantile(q)) ~ q"
 ASSUMPTIONS = ["real-number semantics for f64"]
 
@@ -35,6 +37,8 @@ def mean_of(c):
 
 
 def run(ctx):
+    from .common import check_new_writers
+    check_new_writers(ctx, "R15-new-writers", ['tdigest::TDigest', 'tdigest::TDigestInner'])
     from .common import loop_exits_only_on_exhaustion
     # a digest that keeps state across clear() answers for a mixture of the old and the new data: C19's clear rules for TDigest
     from .C19 import run_clear_rules
